@@ -49,3 +49,74 @@ def print_replay(cases, impl, model, fails):
             print("model:", model[i][:1500])
     for f in fails:
         print("oracle:", f.message[:1500])
+
+
+# ---------------------------------------------------------------------------------------------------------------------------
+# Large sizes, implementation only (the payload is generated inside the harness; the model is not run on megabytes): thresholds
+# at which a buffer is grown, capped, shrunk or released (64 KiB, 1 MiB, 8 MiB, their neighbours), with more of the stream
+# arriving in the same read as the end of the big response.
+
+def _pattern(n):
+    block = bytes((i * 7 + 13) % 251 for i in range(251))
+    return (block * (n // 251 + 1))[:n]
+
+
+def bigbin_cases(tier):
+    sizes = [65535, 65536, 65537, 100000, 1048576 - 64, 1048576, 1048577, 3 * 1048576, 8 * 1048576, 8 * 1048576 + 1]
+    if tier == "thorough":
+        sizes += [131072, 262144 + 1, 4 * 1048576, 16 * 1048576 + 3]
+    cases = []
+    for n in sizes:
+        caps = [0, 65536, 1000] if n <= 3 * 1048576 else [0, 1 << 20]
+        for cap in caps:
+            for fl in ("b", "a"):
+                for shape in ("f", "g", "u"):
+                    cases.append(f"bigbin {fl} {n} {cap} {shape}")
+    for n in (65536, 1048576, 1048577):
+        for fl in ("b", "a"):
+            cases.append(f"bigbin {fl} {n} 0 v")
+    return cases
+
+
+def bigbin_expected(case):
+    _, fl, n, cap, shape = case.split(" ")
+    n = int(n)
+    if shape == "v":
+        return f"resp[(pre=x,key={''.join(chr(97 + b % 26) for b in _pattern(n))})bin=~] | resp[(volume=50)bin=~] | eof"
+    big = f"resp[(size=1)bin={n}:{sum(_pattern(n))}]"
+    if shape == "u":
+        return big + " | ueof"
+    if shape == "g":
+        return big + f" | resp[()bin=100000:{sum(_pattern(100000))}] | resp[(state=play)bin=~] | eof"
+    return big + f" | resp[(volume=50)bin=~] | resp[()bin=100000:{sum(_pattern(100000))}] | resp[(state=play)bin=~] | eof"
+
+
+def run_bigbin(ctx):
+    """-> (cases, outputs, failures)"""
+    from vlib import Failure
+    cases = bigbin_cases(ctx.tier)
+    outs = ctx.run_impl(cases)
+    fails = []
+    for c, o in zip(cases, outs):
+        exp = bigbin_expected(c)
+        if o != exp:
+            _, fl, n, cap, shape = c.split(" ")
+            what = {"f": "followed by three more responses", "g": "followed at once by a binary-only response and a small one", "u": "followed by 'OK' without its line feed and the end of the stream",
+                    "v": "as a field value"}[shape]
+            fails.append(Failure(c, f"a response with a {n}-byte payload {what}, {'blocking' if fl == 'b' else 'async'} connection, "
+                                    f"{'everything in one read' if cap == '0' else 'reads of at most ' + cap + ' bytes'}:\n  got      {o[:300]}\n  expected {exp[:300]}"))
+    return cases, outs, fails
+
+
+def replay_bigbin(ctx, cases):
+    outs = ctx.run_impl(cases)
+    bad = 0
+    for c, o in zip(cases, outs):
+        exp = bigbin_expected(c)
+        print("case    :", c)
+        print("impl    :", o[:600])
+        print("expected:", exp[:600])
+        if o != exp:
+            bad += 1
+            print(f"VIOLATION property={ctx.prop} replay=(this case) large payload handled differently")
+    return 1 if bad else 0
